@@ -95,6 +95,30 @@ def nested_strings(max_leaves=12):
     return st.tuples(body, st.sampled_from([".", ".", ".", "", ". a."])).map(lambda t: t[0] + t[1])
 
 
+# statement skeletons whose holes take 1-2 random tokens: near-valid clauses with odd heads, probabilities, aggregates
+SKELETONS = ["{} :- {}.", "{} :- {}, {}.", "{}::{}.", "{}::{} :- {}.", "{}::{}; {}::{}.", "{}; {} :- {}.", "\\+ {} :- {}.",
+             "not {} :- {}.", "{}::\\+ {}.", "p({}, {}) :- q.", "{}<{}> :- a.", "p({}<{}>, {}) :- q.", "p({}, {}<{}>) :- q.",
+             ":- {}.", "query({}).", "evidence({}, {}).", "{} <- {}.", "{} ~ {}.", "[{} | {}] :- {}.", "p :- {} = [{} | {}]."]
+
+
+def _hole():
+    return st.lists(_token(), min_size=1, max_size=2).map(lambda l: " ".join(l))
+
+
+def skeleton_strings():
+    def fill(t):
+        skel, toks = t
+        out = []
+        i = 0
+        for part in skel.split("{}"):
+            out.append(part)
+            if i < skel.count("{}"):
+                out.append(toks[i % len(toks)])
+                i += 1
+        return "".join(out)
+    return st.tuples(st.sampled_from(SKELETONS), st.lists(_hole(), min_size=5, max_size=5)).map(fill)
+
+
 def char_strings(max_size=12):
     """Raw character sequences over the interesting characters plus arbitrary unicode."""
     return st.one_of(st.text(alphabet=CHARS, min_size=1, max_size=max_size),
@@ -252,6 +276,7 @@ def mutated_generated(max_mutations=4):
 def fuzz_texts():
     """The C17 totality domain."""
     return st.one_of(token_strings(), token_strings(max_tokens=6), nested_strings(), nested_strings(max_leaves=5),
+                     skeleton_strings(), skeleton_strings(),
                      mutated_corpus(), mutated_corpus(max_mutations=2), mutated_generated(), char_strings(),
                      mutated(st.sampled_from(SHORT_STATEMENTS), max_mutations=3))
 
